@@ -26,10 +26,8 @@ def _fresh_set_events(za, p: Path):
 
 
 def pm_paths(za):
-    ev = za.ev()
-    ev.scope_node = za.R_pm
-    paths = ev.run(za.R_pm.body)
-    return paths, ev.npaths + 1
+    paths = za.paths('pm')
+    return paths, len(paths)
 
 
 @rule('C01.R1', 'process_msg decision table over (msg id vs expected id): older => return None with no store; newer => '
@@ -90,7 +88,7 @@ def r2(rr, repo):
     za = anchors(repo)
     call, lst, _, _ = sync_region(za)
     ev = za.ev()
-    paths = ev.run(lst)
+    paths = ev.run(lst, za.start(za.R_once))
     rr.paths += len(paths)
     shared = call.args[0].id
     resterm = U(call)
@@ -104,7 +102,7 @@ def r2(rr, repo):
             rr.ob('a discarded (older) message leaves the expected id untouched and is skipped', ok, za.mod,
                   (binds[0].node if binds else call), witness=p.pc_text(), key='older-skip')
             continue
-        bal = p.facts.get('truthy(balance)')
+        bal = p.facts.get('truthy(self.balance)')
         if truthy is True and bal is False:
             # which loop iterations exist on this path
             iters = [v for k, v in p.pc if k.startswith('iterations(')]
@@ -247,8 +245,7 @@ def r5(rr, repo):
             and 'set(recvd)' in txt and f'set({za.r_topics})' in txt
         rr.ob('keys removed are exactly set(recvd) - set(topics) of an explicit subscription', ok, za.mod, d, witness=txt, key='diff-delete')
     # publisher side: env['topics'] and the publish loop iterate the same object
-    ev = za.ev()
-    paths = [p for p in ev.run(za.S_maybe.body)]
+    paths = za.paths('maybe')
     rr.paths += len(paths)
     n = 0
     for p in paths:
@@ -292,7 +289,7 @@ def r6(rr, repo):
     if len(loops) != 1:
         raise Unresolved(f'{Z}: completion decision: expected one loop over the sources, found {len(loops)}')
     ev = za.ev()
-    paths = ev.run(region)
+    paths = ev.run(region, za.start(za.R_once))
     rr.paths += len(paths)
     n = 0
     for p in paths:
@@ -307,7 +304,7 @@ def r6(rr, repo):
         got_all = [v for k, v in p.facts.items() if k.startswith('eq(') and "'all'" in k and '.got' in k]
         got_none = [v for k, v in p.facts.items() if k.startswith('eq(') and "'none'" in k and '.got' in k]
         eph = [v for k, v in p.facts.items() if k.startswith('truthy(__elem__') and k.endswith('.ephemeral)')]
-        bal = p.facts.get('truthy(balance)')
+        bal = p.facts.get('truthy(self.balance)')
         if got_all and got_all[0] is True:
             rr.holds('returns True with the inspected source complete', za.mod, iff, witness=p.pc_text(), key='true-all')
         elif got_none and got_none[0] is True:
